@@ -23,6 +23,10 @@ SMILES = ["CC(C)Cc1ccc(cc1)C(C)C(=O)O", "CCCCOC(=O)CCN", "CN1CCC[C@H]1c1cccnc1",
           "C1CCCCC1O", "FC(F)(F)CCO"]
 
 
+# heavy-atom graphs with more than a thousand automorphisms (1296): the symmetry-aware RMSD has to try every mapping
+SYM_SMILES = ["CC(C)(C)c1cc(C(C)(C)C)cc(C(C)(C)C)c1", "FC(F)(F)C(C(F)(F)F)(C(F)(F)F)C(F)(F)F"]
+
+
 def fr(x):
     f = Fraction(float(x))
     return str(f.numerator) if f.denominator == 1 else "%d/%d" % (f.numerator, f.denominator)
@@ -86,6 +90,12 @@ class C13(vlib.Check):
             form = rng.choice(["smiles", "smiles", "explicit-h", "no-h"])
             self.count("input:" + form)
             yield {"t": "gen", "smiles": rng.choice(NO_H_SMILES) if form == "no-h" else rng.choice(SMILES), "opts": o, "input": form}
+        for k in range(2 if self.tier == "quick" else 6):
+            self.count("input:highly-symmetric")
+            yield {"t": "gen", "smiles": SYM_SMILES[k % len(SYM_SMILES)], "input": "smiles",
+                   # a pool large enough to hold the same geometry with equivalent groups listed in another order
+                   "opts": {"num_conf": rng.choice([20, 30]), "first": -1, "pool_multiplier": 1, "rmsd_cutoff": 0.5,
+                            "max_energy_diff": None, "forcefield": "uff", "seed": rng.choice([1, 7, 42])}}
         for k in range(2 if self.tier == "quick" else 12):
             self.count("generator-reuse")
             smis = rng.sample(SMILES, 3)
@@ -209,7 +219,7 @@ class C13(vlib.Check):
         # independent re-measurement on the returned molecule
         for a in range(k):
             for b in range(a + 1, k):
-                m2 = Chem.Mol(out)
+                m2 = Chem.RemoveHs(out)      # the cutoff is on the heavy-atom RMSD, every symmetry-equivalent mapping tried
                 v = AllChem.GetBestRMS(m2, m2, out.GetConformer(a).GetId(), out.GetConformer(b).GetId())
                 if o["rmsd_cutoff"] > 0 and v < o["rmsd_cutoff"] - 1e-6:
                     return {"key": "closer-than-cutoff", "what": "conformers %d and %d are %.4f apart, cutoff %s" % (a, b, v, o["rmsd_cutoff"])}
